@@ -284,12 +284,60 @@ def trace_inputs(trace):
     return vals
 
 
+CACHE_DIR = os.path.join(VERIF, '.vx', 'cache')
+TOOLSIG = None
+
+
+def cache_key(kind, text, f, unit):
+    """results may be reused only for byte-identical verified text + identical tool invocation + identical tools"""
+    global TOOLSIG
+    if TOOLSIG is None:
+        TOOLSIG = subprocess.run(['cbmc', '--version'], stdout=subprocess.PIPE).stdout.decode().strip()
+    h = hashlib.sha256()
+    for part in (kind, TOOLSIG, text, f.name, ' '.join(f.replace), ' '.join(f.flags), f.solver, str(f.unwind), str(f.objbits),
+                 str(f.no_enforce), ' '.join(CBMC_CHECKS), json.dumps(unit.defines, sort_keys=True)):
+        h.update(part.encode()); h.update(b'\0')
+    return h.hexdigest()
+
+
+def cache_get(key):
+    if os.environ.get('VX_NO_CACHE'):
+        return None
+    try:
+        return json.load(open(os.path.join(CACHE_DIR, key + '.json')))
+    except Exception:
+        return None
+
+
+def cache_put(key, obj):
+    if os.environ.get('VX_NO_CACHE'):
+        return
+    os.makedirs(CACHE_DIR, exist_ok=True)
+    tmp = os.path.join(CACHE_DIR, '%s.%d.tmp' % (key, os.getpid()))
+    json.dump(obj, open(tmp, 'w'))
+    os.replace(tmp, os.path.join(CACHE_DIR, key + '.json'))
+
+
 def verify_fn(unit, f, unit_text, outdir, want_cover=True):
     r = JobResult(unit.name, f.name)
     base = os.path.join(outdir, unit.name + '.' + f.name)
     cfile = base + '.c'
     text = unit_text + '\n/* ---- harness ---- */\n' + (f.harness or '')
     open(cfile, 'w').write(text)
+    key = cache_key('verify', text, f, unit)
+    hit = cache_get(key)
+    if hit:
+        r.__dict__.update(hit)
+        r.cfile, r.cached = cfile, True
+        return r
+    r.cached = False
+    r2 = _verify_fn(unit, f, text, base, cfile, outdir, r)
+    if r2.status in ('ok', 'failed'):
+        cache_put(key, dict(status=r2.status, reason=r2.reason, obligations=r2.obligations, solver_s=r2.solver_s, cmds=r2.cmds, backend=r2.backend))
+    return r2
+
+
+def _verify_fn(unit, f, text, base, cfile, outdir, r):
     r.cfile = cfile
     entry = 'h_' + f.name
     defs = ['-D%s=%s' % kv for kv in unit.defines.items()]
@@ -336,10 +384,19 @@ def verify_fn(unit, f, unit_text, outdir, want_cover=True):
         r.status, r.reason = 'undecided', 'SAT back end ignored a quantifier'
         return r
     has_unknown = False
+    clines = text.split('\n')
     for x in results:
         st = x['status']
-        o = dict(id=obligation_id(f.name, x['property'], x['description']), prop=x['property'], desc=x['description'],
-                 line=x.get('sourceLocation', {}).get('line'), func=x.get('sourceLocation', {}).get('function'), status=st)
+        ln = x.get('sourceLocation', {}).get('line')
+        oid = obligation_id(f.name, x['property'], x['description'])
+        if ln and re.search(r'\.(precondition|postcondition|loop_invariant_base|loop_invariant_step|assertion)\.', x['property']) and str(ln).isdigit() and int(ln) <= len(clines) \
+                and x.get('sourceLocation', {}).get('file', '').endswith(os.path.basename(cfile)):
+            # contract clauses share one description: the clause's own text identifies the obligation
+            src_line = re.sub(r'\s+', ' ', clines[int(ln) - 1]).strip()
+            if src_line.startswith('__CPROVER_') or 'VX_A(' in src_line:
+                oid += ' :: ' + src_line[:200]
+        o = dict(id=oid, prop=x['property'], desc=x['description'],
+                 line=ln, func=x.get('sourceLocation', {}).get('function'), status=st)
         if st == 'FAILURE':
             o['trace'] = trace_inputs(x.get('trace'))
         elif st != 'SUCCESS':
@@ -361,6 +418,17 @@ def verify_fn(unit, f, unit_text, outdir, want_cover=True):
 def cover_fn(unit, f, unit_text, outdir):
     """anti-vacuity (b): the end of the function under its precondition must be reachable:
     a second binary in which every `return` of the enforced function (and its end) is preceded by assert(0)."""
+    key = cache_key('cover', unit_text + (f.harness or ''), f, unit)
+    hit = cache_get(key)
+    if hit:
+        return tuple(hit['c']), ''
+    res = _cover_fn(unit, f, unit_text, outdir)
+    if res[0] is not None:
+        cache_put(key, dict(c=list(res[0])))
+    return res
+
+
+def _cover_fn(unit, f, unit_text, outdir):
     base = os.path.join(outdir, unit.name + '.' + f.name + '.cover')
     marker = '/*VX_BODY %s*/' % f.name
     j = unit_text.index(marker) + len(marker)
